@@ -135,9 +135,53 @@ def real_eval(payload):
                     lpn = float(log_density(plain, (), {}, {key: xv})[0])
                     diffs.append(lr - lpn)
                 res["exposed"], res["jac"] = exposed, diffs
+                if c.get("seed", 0) % 2 == 0:
+                    res["sky"] = sky_helper_eval(c, ft)
             out.append(res)
         except Exception as e:
             out.append(dict(error=f"{type(e).__name__}: {e}"))
+    return out
+
+
+SKY_NAMES = {"flat": ["sky_back"], "tilted-plane": ["sky_back", "sky_x_sl", "sky_y_sl"]}
+
+
+def sky_stated(c):
+    """(sky type, {parameter: (mu, sigma)}) the sub-case asks the sky prior's helper for: a different law per parameter"""
+    sky_type = ["flat", "tilted-plane", "tilted-plane"][(c.get("seed", 0) // 2) % 3]
+    return sky_type, {nm: (c["loc"] * (0.37 + 0.61 * i), c["scale"] * (1.0 + 1.7 * i)) for i, nm in enumerate(SKY_NAMES[sky_type])}
+
+
+def sky_helper_eval(c, ft):
+    """The sky prior's own helper (`update_prior`, the one FitMultiBand uses between its stages) followed by the trace of the
+    model a fitter builds: every sky parameter must be exposed as mu + sigma·base with its OWN mu and sigma."""
+    import jax.numpy as jnp
+    from numpyro import handlers
+    import pysersic
+    import pysersic.priors as PR
+    sfx = c["suffix"]
+    sky_type, stated = sky_stated(c)
+    N = 12
+    prior = PR.PySersicSourcePrior("pointsource", sky_type=sky_type, sky_guess=0.02, sky_guess_err=0.004, suffix=sfx)
+    for nm, mu, sg in (("xc", 6.0, 1.0), ("yc", 6.0, 1.0), ("flux", 50.0, 5.0)):
+        prior.set_gaussian_prior(nm, mu, sg)
+    for nm, (mu, sg) in stated.items():
+        prior.sky_prior.update_prior(nm, mu, sg)
+    rng = np.random.default_rng(c.get("seed", 0))
+    data = rng.normal(0, 0.1, (N, N)).astype(np.float32)
+    psf = np.zeros((3, 3), np.float32)
+    psf[1, 1] = 1.0
+    fitter = pysersic.FitSingle(data, np.full((N, N), 0.1, np.float32), psf, prior)
+    model = fitter.build_model()
+    zs = {nm: float(z) for nm, z in zip(stated, rng.normal(0, 1, len(stated)))}
+    sub = {nm + sfx + "_base": jnp.asarray(z, dtype=ft) for nm, z in zs.items()}
+    tr = handlers.trace(handlers.substitute(handlers.seed(model, 0), data=sub)).get_trace()
+    out = dict(sky_type=sky_type, sites={})
+    for nm in stated:
+        k = nm + sfx
+        out["sites"][nm] = dict(present=k in tr, kind=tr[k]["type"] if k in tr else None,
+                                base=(k + "_base" in tr and tr[k + "_base"]["type"] == "sample"),
+                                value=float(tr[k]["value"]) if k in tr else None, z=zs[nm])
     return out
 
 
@@ -237,6 +281,8 @@ def evaluate(ctx, cases, deep_every=4):
                 break
     for c, r in zip(deep, r32d):
         if "error" in r:
+            viol.append(Violation(f"C11:exception:{c['kind']}", f"{c['kind']} helper (loc={c['loc']:.5g}, scale={c['scale']:.5g}, low={c['low']}, high={c['high']}, "
+                                  f"suffix '{c['suffix']}'): sampling / tracing the installed prior raised {r['error'][:200]}", dict(kind="oracle", case=c)))
             continue
         if not r.get("base_site", True):
             viol.append(Violation(f"C11:not-reparameterised:{c['kind']}", f"{c['kind']} helper with suffix '{c['suffix']}': the parameter is not re-parameterised to unit scale "
@@ -254,6 +300,20 @@ def evaluate(ctx, cases, deep_every=4):
             if not close(xv, loc + sc * z, 2e-6, 1e-6 * sc):
                 viol.append(Violation(f"C11:exposed:{c['kind']}", f"{c['kind']} helper: exposed value {xv!r} ≠ loc + scale·base = {loc + sc * z!r}", dict(kind="oracle", case=c)))
                 break
+        if r.get("sky"):
+            _, stated = sky_stated(c)
+            for nm, (mu, sg) in stated.items():
+                st = r["sky"]["sites"][nm]
+                if not st["present"] or not st["base"] or st["kind"] != "deterministic":
+                    viol.append(Violation("C11:sky-not-reparameterised", f"sky helper update_prior('{nm}', …) with suffix '{c['suffix']}', sky {r['sky']['sky_type']}: in the fitter's model "
+                                          f"the parameter is not exposed as loc + scale·base (present={st['present']}, kind={st['kind']}, base latent={st['base']})",
+                                          dict(kind="oracle", case=c)))
+                    break
+                exp = float(np.float32(mu)) + float(np.float32(sg)) * st["z"]
+                if not close(st["value"], exp, 5e-6, 2e-6 * sg):
+                    viol.append(Violation("C11:sky-exposed", f"sky helper update_prior('{nm}', mu={mu:.6g}, sigma={sg:.6g}), sky {r['sky']['sky_type']}: the fitter's model exposes "
+                                          f"{st['value']!r}, stated mu + sigma·base = {exp!r}", dict(kind="oracle", case=c)))
+                    break
         j = np.asarray(r["jac"])
         if np.all(np.isfinite(j)) and not (j.max() - j.min() <= 1e-3 and abs(j.mean() - np.log(sc)) <= 1e-3 * max(1, abs(np.log(sc)))):
             viol.append(Violation(f"C11:jacobian:{c['kind']}", f"{c['kind']} helper: reparameterised − plain log-density = {j.tolist()}, expected the constant log(scale) = {np.log(sc):.6g}",
